@@ -109,6 +109,58 @@ type Analyzer struct {
 	Invariant func(a *Analyzer, st *State, owner, field, obj string) (AVal, bool)
 	// EntryAssume may add facts about the arguments of an entry function (documented preconditions).
 	EntryAssume func(a *Analyzer, st *State, fn *ssa.Function, args []AVal)
+	// Probe, when set, is called in recording runs before every instruction (Instr != nil) and on every
+	// control-flow edge (From/To set, St refined by the branch condition) of every analysed frame.
+	Probe func(p *Probe)
+}
+
+// Probe is a program point handed to Analyzer.Probe: the state there and the chain of frames (innermost first).
+type Probe struct {
+	Instr    ssa.Instruction
+	Post     bool // the probe follows the instruction (its value is available), otherwise it precedes it
+	From, To *ssa.BasicBlock
+	St       *State
+	Ctx      string
+	frames   []*inst
+}
+
+// Depth is the inlining depth of the innermost frame (0 = the entry function).
+func (p *Probe) Depth() int { return len(p.frames) - 1 }
+
+// Frames is the number of frames on the abstract call stack.
+func (p *Probe) Frames() int { return len(p.frames) }
+
+// Fn returns the function of frame i (0 = innermost).
+func (p *Probe) Fn(i int) *ssa.Function { return p.frames[i].fn }
+
+// Val returns the abstract value of v in frame i when it was evaluated in the current pass (constants always).
+func (p *Probe) Val(i int, v ssa.Value) (AVal, bool) {
+	in := p.frames[i]
+	if x, ok := in.env[v]; ok {
+		return x, true
+	}
+	if _, ok := v.(*ssa.Const); ok {
+		return in.val(p.St, v), true
+	}
+	return AVal{}, false
+}
+
+// Proves reports whether the facts at the probe imply the goals.
+func (p *Probe) Proves(goals ...Ineq) bool {
+	for _, g := range goals {
+		if !Proves(p.St.Facts, g) {
+			return false
+		}
+	}
+	return true
+}
+
+func (in *inst) chain() []*inst {
+	var out []*inst
+	for x := in; x != nil; x = x.parent {
+		out = append(out, x)
+	}
+	return out
 }
 
 // Add appends facts to a state (for Invariant callbacks).
@@ -224,7 +276,9 @@ type inst struct {
 	loops     []*ir.Loop
 	failedInv bool
 	// edge: value of another header phi on the edge currently examined (relational templates)
-	edge func(o *ssa.Phi) (AVal, bool)
+	edge   func(o *ssa.Phi) (AVal, bool)
+	parent *inst
+	locSl  []string
 }
 
 // Run analyses fn as an entry point: parameters are unknown (slices have a
@@ -239,12 +293,12 @@ func (a *Analyzer) Run(fn *ssa.Function) {
 	if a.EntryAssume != nil {
 		a.EntryAssume(a, st, fn, args)
 	}
-	a.EntryRets = a.call(fn, args, st, 0, core.FuncName(fn), true)
+	a.EntryRets = a.call(fn, args, st, 0, core.FuncName(fn), true, nil)
 }
 
 // call analyses an instance of fn and returns its returns.
-func (a *Analyzer) call(fn *ssa.Function, args []AVal, st *State, depth int, ctx string, record bool) []retInfo {
-	in := &inst{a: a, fn: fn, depth: depth, ctx: ctx, inv: nil, params: map[string]Lin{}}
+func (a *Analyzer) call(fn *ssa.Function, args []AVal, st *State, depth int, ctx string, record bool, parent *inst) []retInfo {
+	in := &inst{a: a, fn: fn, depth: depth, ctx: ctx, inv: nil, params: map[string]Lin{}, parent: parent}
 	in.loops = ir.Loops(fn)
 	// Houdini over loop invariants: dry runs until stable, then a recording run
 	for round := 0; round < 6; round++ {
@@ -320,6 +374,9 @@ func (in *inst) runOnce(args []AVal, st0 *State) {
 				e := in.refine(ps, p, b)
 				if e.Dead {
 					continue
+				}
+				if in.record && in.a.Probe != nil {
+					in.a.Probe(&Probe{From: p, To: b, St: e, Ctx: in.ctx, frames: in.chain()})
 				}
 				preds = append(preds, e)
 				predBlocks = append(predBlocks, p)
@@ -429,7 +486,41 @@ func (in *inst) templates() []string {
 	for _, p := range ps {
 		ts = append(ts, "le:"+p)
 	}
+	// slices made outside every loop (`src = src[:hn+remlen]` in front of a decode loop): a cursor may be
+	// bounded by their length just as by a parameter's
+	for _, n := range in.localSlices() {
+		if _, dup := in.params[n]; !dup {
+			ts = append(ts, "le:"+n)
+		}
+	}
 	return ts
+}
+
+// localSlices: names ("loc:<ssa name>") of the slice expressions of the function that lie outside every loop.
+func (in *inst) localSlices() []string {
+	if in.locSl != nil {
+		return in.locSl
+	}
+	in.locSl = []string{}
+	for _, b := range in.fn.Blocks {
+		inLoop := false
+		for _, l := range in.loops {
+			if l.Blocks[b] {
+				inLoop = true
+			}
+		}
+		if inLoop {
+			continue
+		}
+		for _, ins := range b.Instrs {
+			if x, ok := ins.(*ssa.Slice); ok {
+				if _, isSl := x.Type().Underlying().(*types.Slice); isSl && len(in.locSl) < 6 {
+					in.locSl = append(in.locSl, "loc:"+x.Name())
+				}
+			}
+		}
+	}
+	return in.locSl
 }
 
 // templateHolds: does template t hold for value inc in state st? (hv is the header symbol, unused for now)
@@ -718,7 +809,7 @@ func (in *inst) merge(b *ssa.BasicBlock, preds []*State, predBlocks []*ssa.Basic
 				seenC := map[string]bool{}
 				addC := func(l Lin) {
 					k := l.String()
-					if !seenC[k] && len(cands) < 10 {
+					if !seenC[k] && len(cands) < 24 {
 						seenC[k] = true
 						cands = append(cands, l)
 					}
@@ -732,6 +823,33 @@ func (in *inst) merge(b *ssa.BasicBlock, preds []*State, predBlocks []*ssa.Basic
 					sort.Strings(syms)
 					for _, sname := range syms {
 						addC(Sym(sname))
+					}
+				}
+				// bounds an incoming symbol has by a fact of its own edge (`n <= ppos - cpos` for n = copy(.., s[i:i+b])):
+				// each is only kept when it holds on every incoming edge
+				for _, x := range incs {
+					if len(x.l.T) != 1 || x.l.K.Sign() != 0 {
+						continue
+					}
+					var s string
+					for sname, co := range x.l.T {
+						if co.Cmp(rat(1)) == 0 {
+							s = sname
+						}
+					}
+					if s == "" {
+						continue
+					}
+					for _, f := range x.st.Facts {
+						co, has := f.L.T[s]
+						if !has || len(f.L.T) < 2 || len(f.L.T) > 4 {
+							continue
+						}
+						if co.Cmp(rat(-1)) == 0 {
+							addC(f.L.Add(Sym(s))) // E - s >= 0: s <= E
+						} else if co.Cmp(rat(1)) == 0 {
+							addC(f.L.Sub(Sym(s)).Neg()) // s - E >= 0: s >= E
+						}
 					}
 				}
 				for _, cnd := range cands {
@@ -938,7 +1056,11 @@ func (in *inst) assume(st *State, cond ssa.Value, truth bool) {
 			}
 		}
 	case *ssa.Call:
-		// boolean helpers are not interpreted
+		// a boolean helper with several returns, each yielding a constant: the facts of the matching return hold
+		// when exactly one matches (`if !bf.waitForConsumer(wrap) { return EOF }`)
+		if ov := in.val(st, c); ov.Rec != nil {
+			in.importReturnBool(st, ov, truth)
+		}
 	}
 }
 
@@ -1075,9 +1197,15 @@ func (in *inst) oblige(st *State, ins ssa.Instruction, kind, desc string, goals 
 
 func (in *inst) block(b *ssa.BasicBlock, st *State) {
 	for _, ins := range b.Instrs {
+		if in.record && in.a.Probe != nil {
+			in.a.Probe(&Probe{Instr: ins, St: st, Ctx: in.ctx, frames: in.chain()})
+		}
 		in.instr(st, ins)
 		if st.Dead {
 			return
+		}
+		if in.record && in.a.Probe != nil {
+			in.a.Probe(&Probe{Instr: ins, Post: true, St: st, Ctx: in.ctx, frames: in.chain()})
 		}
 	}
 }
@@ -1426,6 +1554,11 @@ func (in *inst) slice(st *State, x *ssa.Slice) AVal {
 	// against len, not cap: "never reads or exposes bytes beyond the end of the slice it was given"
 	in.oblige(st, x, "slice", "0 <= lo <= hi <= len(s) for "+x.String(), GE(lo, Const(0)), GE(hi, lo), LE(hi, baseLen))
 	st.add(GE(lo, Const(0)), GE(hi, lo), LE(hi, baseLen))
+	for _, n := range in.localSlices() {
+		if n == "loc:"+x.Name() {
+			in.params[n] = hi.Sub(lo)
+		}
+	}
 	return AVal{Kind: KSlice, Len: hi.Sub(lo)}
 }
 
@@ -1618,7 +1751,7 @@ func (in *inst) onStack(fn *ssa.Function) bool {
 
 func (a *Analyzer) callFrom(in *inst, callee *ssa.Function, args []AVal, st *State) []retInfo {
 	ctx := in.ctx + " > " + core.FuncName(callee)
-	return a.call(callee, args, st, in.depth+1, ctx, in.record)
+	return a.call(callee, args, st, in.depth+1, ctx, in.record, in)
 }
 
 // binaryCall models encoding/binary.
@@ -1676,6 +1809,49 @@ func (a *Analyzer) HeapAtReturn(r int, idx int, path string) (AVal, bool) {
 func (a *Analyzer) EntryReturn(idx int) (*ssa.Return, []AVal, []Ineq) {
 	r := a.EntryRets[idx]
 	return r.Ret, r.Results, r.State.Facts
+}
+
+// RetVariant is one way a return of the entry function can happen.
+type RetVariant struct {
+	Ret     *ssa.Return
+	Results []AVal
+	Facts   []Ineq
+	Heap    map[string]AVal
+}
+
+// EntryReturnVariants splits the idx-th return of the entry function when it passes on the results of a library
+// call with several returns whose error is still undetermined (`return m.header.decode(src)`): one variant per
+// return of that callee, with its facts, results and heap. Otherwise the return itself is the only variant.
+func (a *Analyzer) EntryReturnVariants(idx int) []RetVariant {
+	r := a.EntryRets[idx]
+	one := []RetVariant{{r.Ret, r.Results, r.State.Facts, r.State.Heap}}
+	if len(r.Results) == 0 {
+		return one
+	}
+	last := r.Results[len(r.Results)-1]
+	if last.IsNil != 0 || last.Rec == nil {
+		return one
+	}
+	rec := last.Rec
+	var out []RetVariant
+	for _, rr := range rec.Rets {
+		st := r.State.clone()
+		if len(rr.State.Facts) >= rec.NFacts {
+			st.add(rr.State.Facts[rec.NFacts:]...)
+		}
+		res := make([]AVal, len(r.Results))
+		for j, v := range r.Results {
+			res[j] = v
+			if v.Rec == rec && v.Idx < len(rr.Results) {
+				res[j] = rr.Results[v.Idx]
+			}
+		}
+		for k, v := range rr.State.Heap {
+			st.Heap[k] = v
+		}
+		out = append(out, RetVariant{r.Ret, res, st.Facts, st.Heap})
+	}
+	return out
 }
 
 // RetCheck is the verdict on one return of the entry function.
